@@ -6,7 +6,7 @@ import random
 
 from pyvc.registry import ComponentResult, Finding, component
 
-NUMS = ["0", "1", "-2", "+3", "1.5", ".5", "-.25", "2.", "1e1", "1e+1", "2.5E-1", "3.0e+0", "45", "-90", "100", "0.001"]
+NUMS = ["0", "1", "-2", "+3", "1.5", ".5", "-.25", "2.", "1e1", "1e+1", "2.5E-1", "3.0e+0", "45", "-90", "100", "0.001", "1.5E1", "4E1", "9E+1", "-2.5E-1", "1E0"]
 OPS = [("matrix", 6), ("translate", 1), ("translate", 2), ("scale", 1), ("scale", 2), ("rotate", 1), ("rotate", 3), ("skewX", 1), ("skewY", 1)]
 
 
@@ -30,7 +30,7 @@ def _gen(rnd):
     return rnd.choice([" ", ",", ", ", "", "\t", "\n "]).join(parts)
 
 
-@component("C11", "transform.strings", "bounded")
+@component(("C11", "C02", "C06"), "transform.strings", "bounded")
 def transform_strings(tier, seed):
     from bounded import refrender
     from picosvg.svg_transform import Affine2D
